@@ -1,10 +1,16 @@
-//! C19 executor: Tensor<E, D> for E in {i64, i32, u8, String} and D in 0..=6, 8.
+//! C19 executor: Tensor<E, D> for E in {i64, i32, u8, String} and D in 0..=6, 8, and for every other element type
+//! rlib_io can read (i8, i16, u16, u32, u64, i128, u128, isize, usize, char, the tuples (i64, u8), (u8, i64, u16),
+//! (char, u32)) and D in 0..=3.
 //!
 //! input line :  D[:ty] d_0..d_{D-1}  ctor  n x_0..x_{n-1}  op*
-//!   ty   = i64 (default) | i32 | u8 | str (String holding the decimal text); elements travel as integers
+//!   ty   = i64 (default) | i32 | u8 | str (String holding the decimal text) | i8 | i16 | u16 | u32 | u64 | i128 | u128 |
+//!          isize | usize | char | t2 = (i64, u8) | t3 = (u8, i64, u16) | tc = (char, u32).
+//!          Elements travel in their protocol spelling: the decimal text std's `to_string` gives for an integer (never
+//!          rlib_io's rendering), the code point in decimal for a char, the components joined by ',' for a tuple.
+//!          char and tc are Readable but not Writable: `w` / `rt` are not available for them.
 //!   ctor = V (from_vec) | S (from_slice) | N v (new; the data list is still parsed, and ignored)
 //!   op   = gi i*D | g i*D | s i*D v | it | dm | w | rt | db | rd r*D text | eq e*D m y*m | im m v*m
-//!   text = written bytes with ' ' -> '_' and '\n' -> '/' ("." = empty)
+//!   text = written bytes with ' ' -> '_', '\n' -> '/', '\r' -> '\\', '\t' -> '~' ("." = empty)
 //! output line:  C|P  then one observation per op (nothing after a constructor panic):
 //!   gi -> offset|P   g -> value|P   s -> ok|P   it -> n x*n   dm -> d*D   w -> text|P
 //!   rt -> P | eqflag n x*n   (write, read back with the same dims, compare with ==, iterate)
@@ -19,54 +25,205 @@
 //!     Index at the valid indices, written text, Debug text), with from_vec(dims, iter) -- `it`, `dm`, `rt`, `rd`;
 //!   * copies are independent (writing to a clone through IndexMut / iter_mut leaves the original alone) -- `it`, `dm`;
 //!   * iter(): count / nth / last / size_hint agree with the collected elements -- `it`;
-//!   * one Writer carrying a scalar, the tensor, '\n' and the tensor again -- `w`;
-//!   * one Reader delivering the tensor twice and a following scalar -- `rd`.
+//!   * one Writer carrying a scalar, the tensor, '\n' and the tensor again; the tensor inside a Vec, inside a tuple
+//!     between scalars, and a pair of tensors, through `Writable for Vec<T>` / for tuples -- `w`;
+//!   * one Reader delivering a scalar, the tensor twice (the first one starting on the scalar's line, the second one on
+//!     the line on which the first one ends), a scalar and a pair of scalars read as a tuple; the expected elements are
+//!     taken from the text with the standard library's parsing, element type by element type -- `rd`.
 use rlib_io::{Readable, Reader, Writable, Writer};
 use rlib_tensor::Tensor;
 use vh::{guarded, p};
 
-const BAD: i64 = -999_999_999_999_999;
+/// protocol spelling of an element the plugin maps to a value no model predicts
+const BAD: &str = "-999999999999999";
 
-trait Elem: Clone + PartialEq + std::fmt::Debug + Readable + Writable + 'static {
-    fn of(v: i64) -> Self;
-    fn to(&self) -> i64;
-}
-impl Elem for i64 {
-    fn of(v: i64) -> Self {
-        v
-    }
-    fn to(&self) -> i64 {
-        *self
+fn skip_ws(s: &mut &[u8]) {
+    while let [c, rest @ ..] = *s {
+        if c.is_ascii_whitespace() {
+            *s = rest;
+        } else {
+            break;
+        }
     }
 }
-impl Elem for i32 {
-    fn of(v: i64) -> Self {
-        i32::try_from(v).unwrap_or_else(|_| {
-            eprintln!("harness: {} is not an i32", v);
-            std::process::exit(3)
-        })
+
+/// one maximal run of non-whitespace bytes off the front of an input text
+fn token<'a>(s: &mut &'a [u8]) -> Option<&'a str> {
+    skip_ws(s);
+    let b: &'a [u8] = *s;
+    let n = b.iter().position(|c| c.is_ascii_whitespace()).unwrap_or(b.len());
+    if n == 0 {
+        return None;
     }
-    fn to(&self) -> i64 {
-        *self as i64
-    }
+    let (tok, rest) = b.split_at(n);
+    *s = rest;
+    std::str::from_utf8(tok).ok()
 }
-impl Elem for u8 {
-    fn of(v: i64) -> Self {
-        u8::try_from(v).unwrap_or_else(|_| {
-            eprintln!("harness: {} is not a u8", v);
-            std::process::exit(3)
-        })
-    }
-    fn to(&self) -> i64 {
-        *self as i64
-    }
+
+fn not_writable() -> ! {
+    eprintln!("harness: this element type is not Writable");
+    std::process::exit(3)
 }
+
+/// An element type of the tensors under test.  Everything here goes through the standard library (parse / to_string),
+/// never through rlib_io, except `put` / `put_one`, which are the calls under test.
+trait Elem: Clone + PartialEq + std::fmt::Debug + Readable + 'static {
+    const WRITABLE: bool;
+    /// from the protocol spelling
+    fn of(s: &str) -> Self;
+    /// protocol spelling
+    fn to(&self) -> String;
+    /// spelling inside an input text / expected spelling inside a written text
+    fn spell(&self) -> String {
+        self.to()
+    }
+    /// small distinct values for the executor's own checks
+    fn small(k: u8) -> Self {
+        Self::of(&k.to_string())
+    }
+    /// one element off the front of an input text (None: no further element, or not parsable by std)
+    fn take(s: &mut &[u8]) -> Option<Self>;
+    /// `writer.write(tensor)`
+    fn put<const D: usize>(t: &Tensor<Self, D>, w: &mut Writer);
+    /// `writer.write(element)`
+    fn put_one(&self, w: &mut Writer);
+    /// the tensor inside the containers rlib_io can write
+    fn nested_ok<const D: usize>(t: &Tensor<Self, D>, single: &[u8]) -> bool;
+}
+
+macro_rules! writable {
+    () => {
+        const WRITABLE: bool = true;
+        fn put<const D: usize>(t: &Tensor<Self, D>, w: &mut Writer) {
+            w.write(t)
+        }
+        fn put_one(&self, w: &mut Writer) {
+            w.write(self)
+        }
+        fn nested_ok<const D: usize>(t: &Tensor<Self, D>, single: &[u8]) -> bool {
+            nested_ok(t, single)
+        }
+    };
+}
+
+macro_rules! readonly {
+    () => {
+        const WRITABLE: bool = false;
+        fn put<const D: usize>(_: &Tensor<Self, D>, _: &mut Writer) {
+            not_writable()
+        }
+        fn put_one(&self, _: &mut Writer) {
+            not_writable()
+        }
+        fn nested_ok<const D: usize>(_: &Tensor<Self, D>, _: &[u8]) -> bool {
+            true
+        }
+    };
+}
+
+macro_rules! int_elem {
+    ($($t:ty),*) => {$(
+        impl Elem for $t {
+            writable!();
+            fn of(s: &str) -> Self {
+                p(s)
+            }
+            fn to(&self) -> String {
+                self.to_string()
+            }
+            fn take(s: &mut &[u8]) -> Option<Self> {
+                token(s)?.parse().ok()
+            }
+        }
+    )*};
+}
+int_elem!(i8, i16, i32, i64, i128, isize, u8, u16, u32, u64, u128, usize);
+
 impl Elem for String {
-    fn of(v: i64) -> Self {
-        v.to_string()
+    writable!();
+    fn of(s: &str) -> Self {
+        s.to_string()
     }
-    fn to(&self) -> i64 {
-        self.parse().unwrap_or(BAD)
+    fn to(&self) -> String {
+        // (a read at the end of the input of a release build yields the empty string)
+        if !self.is_empty() && self.bytes().all(|b| b.is_ascii_graphic() && b != b',') {
+            self.clone()
+        } else {
+            BAD.to_string()
+        }
+    }
+    fn take(s: &mut &[u8]) -> Option<Self> {
+        token(s).map(|x| x.to_string())
+    }
+}
+
+impl Elem for char {
+    readonly!();
+    fn of(s: &str) -> Self {
+        char::from_u32(p(s)).unwrap_or_else(|| {
+            eprintln!("harness: {} is not a char", s);
+            std::process::exit(3)
+        })
+    }
+    fn to(&self) -> String {
+        (*self as u32).to_string()
+    }
+    fn spell(&self) -> String {
+        self.to_string()
+    }
+    fn small(k: u8) -> Self {
+        (b'a' + k % 26) as char
+    }
+    fn take(s: &mut &[u8]) -> Option<Self> {
+        skip_ws(s);
+        let (c, rest) = s.split_first()?;
+        *s = rest;
+        Some(*c as char)
+    }
+}
+
+macro_rules! tuple_elem {
+    ($body:ident; $($t:ident . $i:tt),+) => {
+        impl Elem for ($($t,)+) {
+            $body!();
+            fn of(s: &str) -> Self {
+                let mut it = s.split(',');
+                let r = ($(<$t as Elem>::of(it.next().unwrap_or("missing-component")),)+);
+                if it.next().is_some() {
+                    eprintln!("harness: too many components in {}", s);
+                    std::process::exit(3)
+                }
+                r
+            }
+            fn to(&self) -> String {
+                [$(self.$i.to()),+].join(",")
+            }
+            fn spell(&self) -> String {
+                [$(self.$i.spell()),+].join(" ")
+            }
+            fn small(k: u8) -> Self {
+                ($(<$t as Elem>::small(k),)+)
+            }
+            fn take(s: &mut &[u8]) -> Option<Self> {
+                Some(($(<$t as Elem>::take(s)?,)+))
+            }
+        }
+    };
+}
+tuple_elem!(writable; i64.0, u8.1);
+tuple_elem!(writable; u8.0, i64.1, u16.2);
+tuple_elem!(readonly; char.0, u32.1);
+
+/// every element of an input text, in order (None: some part of it is not an element for std's parsing)
+fn lex_all<E: Elem>(text: &[u8]) -> Option<Vec<E>> {
+    let mut s = text;
+    let mut v = Vec::new();
+    loop {
+        skip_ws(&mut s);
+        if s.is_empty() {
+            return Some(v);
+        }
+        v.push(E::take(&mut s)?);
     }
 }
 
@@ -79,7 +236,7 @@ fn enc(bytes: &[u8]) -> String {
         .map(|&b| match b {
             b' ' => '_',
             b'\n' => '/',
-            b if b.is_ascii_graphic() && b != b'_' && b != b'/' && b != b'.' => b as char,
+            b if b.is_ascii_graphic() && !b"_/.\\~".contains(&b) => b as char,
             _ => '?',
         })
         .collect()
@@ -93,6 +250,8 @@ fn dec(s: &str) -> Vec<u8> {
         .map(|b| match b {
             b'_' => b' ',
             b'/' => b'\n',
+            b'\\' => b'\r',
+            b'~' => b'\t',
             b => b,
         })
         .collect()
@@ -102,7 +261,7 @@ fn written<E: Elem, const D: usize>(t: &Tensor<E, D>) -> Vec<u8> {
     let mut v = Vec::new();
     {
         let mut w = Writer::new(Box::new(&mut v));
-        w.write(t);
+        E::put(t, &mut w);
     }
     v
 }
@@ -113,18 +272,50 @@ fn shared_writer_ok<E: Elem, const D: usize>(t: &Tensor<E, D>, single: &[u8]) ->
         let mut v = Vec::new();
         {
             let mut w = Writer::new(Box::new(&mut v));
-            w.write(&E::of(31));
+            E::small(31).put_one(&mut w);
             w.write_char(' ');
-            w.write(t);
+            E::put(t, &mut w);
             w.write_char('\n');
-            w.write(t);
+            E::put(t, &mut w);
         }
         v
     });
-    let mut want = b"31 ".to_vec();
+    let mut want = E::small(31).spell().into_bytes();
+    want.push(b' ');
     want.extend_from_slice(single);
     want.push(b'\n');
     want.extend_from_slice(single);
+    got == Some(want)
+}
+
+/// the tensor as an item of `Writable for Vec<T>` and as a component of `Writable for (A, B, ..)`: the text of the
+/// tensor alone, joined by single blanks with its neighbours
+fn nested_ok<E: Elem + Writable, const D: usize>(t: &Tensor<E, D>, single: &[u8]) -> bool {
+    fn one(f: impl FnOnce(&mut Writer)) -> Vec<u8> {
+        let mut v = Vec::new();
+        {
+            let mut w = Writer::new(Box::new(&mut v));
+            f(&mut w);
+        }
+        v
+    }
+    let got = guarded(|| {
+        [
+            one(|w| w.write(&vec![t.clone(), t.clone(), t.clone()])),
+            one(|w| w.write(&(E::small(31), t.clone(), 7u32))),
+            one(|w| w.write(&(t.clone(), t.clone()))),
+            one(|w| w.write(&vec![(t.clone(), E::small(5)), (t.clone(), E::small(6))])),
+        ]
+    });
+    let s31 = E::small(31).spell().into_bytes();
+    let (s5, s6) = (E::small(5).spell().into_bytes(), E::small(6).spell().into_bytes());
+    let sp: &[u8] = b" ";
+    let want = [
+        [single, sp, single, sp, single].concat(),
+        [&s31[..], sp, single, sp, b"7"].concat(),
+        [single, sp, single].concat(),
+        [single, sp, &s5[..], sp, single, sp, &s6[..]].concat(),
+    ];
     got == Some(want)
 }
 
@@ -133,37 +324,48 @@ fn read_from<E: Elem, const D: usize>(dims: [usize; D], bytes: Vec<u8>) -> Tenso
     Tensor::<E, D>::read(dims, &mut r)
 }
 
-/// the text twice and a scalar behind it through ONE reader: two tensors and the scalar, token by token
-/// (only called after a read of `text` alone has succeeded, so there are enough tokens)
+/// a scalar, the text twice, a scalar and a pair of scalars through ONE reader: element by element what std's parsing
+/// finds in the text (only called after a read of `text` alone has succeeded, so there are enough elements)
 fn shared_reader_ok<E: Elem, const D: usize>(dims: [usize; D], text: &[u8], n: usize) -> bool {
-    let s = String::from_utf8_lossy(text).to_string();
-    let one: Option<Vec<i64>> = s.split_ascii_whitespace().map(|x| x.parse::<i64>().ok()).collect();
-    let one = match one {
+    let one: Vec<E> = match lex_all::<E>(text) {
         Some(v) if v.len() >= n => v,
-        _ => return true, // tokens that are not integers: nothing to compare against
+        _ => return true, // not elements for the standard library: nothing to compare against
     };
-    let mut all = one.clone();
+    let mut all = vec![E::small(9)];
     all.extend_from_slice(&one);
-    all.push(31);
-    // the second copy starts on the line on which the first one ends (a read that eats the rest of its last line loses tokens)
-    let mut bytes = text.to_vec();
+    all.extend_from_slice(&one);
+    all.extend([E::small(31), E::small(32), E::small(33)]);
+    // the first copy starts on the line of the scalar in front of it, the second copy on the line on which the first
+    // one ends (a read that eats the rest of its last line, or starts on a fresh line, loses elements)
+    let mut bytes = E::small(9).spell().into_bytes();
     bytes.push(b' ');
     bytes.extend_from_slice(text);
-    bytes.extend_from_slice(b" 31\n");
+    bytes.push(b' ');
+    bytes.extend_from_slice(text);
+    for k in [31, 32, 33] {
+        bytes.push(b' ');
+        bytes.extend_from_slice(E::small(k).spell().as_bytes());
+    }
+    bytes.push(b'\n');
     let got = guarded(|| {
         let mut r = Reader::new(Box::new(std::io::Cursor::new(bytes)));
+        let z0: E = r.read();
         let a = Tensor::<E, D>::read(dims, &mut r);
         let b = Tensor::<E, D>::read(dims, &mut r);
         let z: E = r.read();
-        (a, b, z)
+        let zz: (E, E) = r.read();
+        (z0, a, b, z, zz)
     });
     match got {
-        Some((a, b, z)) => {
+        Some((z0, a, b, z, zz)) => {
             a.dims() == &dims
                 && b.dims() == &dims
-                && a.iter().map(|x| x.to()).eq(all[..n].iter().copied())
-                && b.iter().map(|x| x.to()).eq(all[n..2 * n].iter().copied())
-                && z.to() == all[2 * n]
+                && z0 == all[0]
+                && a.iter().eq(all[1..1 + n].iter())
+                && b.iter().eq(all[1 + n..1 + 2 * n].iter())
+                && z == all[1 + 2 * n]
+                && zz.0 == all[2 + 2 * n]
+                && zz.1 == all[3 + 2 * n]
         }
         None => false,
     }
@@ -178,10 +380,10 @@ fn arr<const D: usize>(t: &[&str], at: &mut usize) -> [usize; D] {
     a
 }
 
-fn list(out: &mut Vec<String>, it: impl Iterator<Item = i64>) {
-    let v: Vec<i64> = it.collect();
+fn list(out: &mut Vec<String>, it: impl Iterator<Item = String>) {
+    let v: Vec<String> = it.collect();
     out.push(v.len().to_string());
-    out.extend(v.iter().map(|x| x.to_string()));
+    out.extend(v);
 }
 
 /// the offsets at which a tensor of n elements is probed (all of them for small tensors)
@@ -211,20 +413,22 @@ fn fingerprint<E: Elem, const D: usize>(t: &Tensor<E, D>) -> Option<String> {
         let mut s = format!("{:?}|", t.dims());
         let n = t.iter().count();
         for x in t.iter() {
-            s.push_str(&x.to().to_string());
-            s.push(',');
+            s.push_str(&x.to());
+            s.push(';');
         }
         s.push('|');
         if t.dims().iter().all(|&d| d > 0) {
             for k in probes(n) {
                 let idx = unflatten(t.dims(), k);
-                s.push_str(&format!("{}:{},", t.get_index(idx), t[idx].to()));
+                s.push_str(&format!("{}:{};", t.get_index(idx), t[idx].to()));
             }
         }
         // (the texts of long tensors are compared by the caller of the executor, not here)
         if n <= 8192 {
             s.push('|');
-            s.push_str(&String::from_utf8_lossy(&written(t)));
+            if E::WRITABLE {
+                s.push_str(&String::from_utf8_lossy(&written(t)));
+            }
             s.push('|');
             s.push_str(&format!("{:?}", t));
         }
@@ -254,9 +458,9 @@ fn copies_agree<E: Elem, const D: usize>(t: &Tensor<E, D>) -> bool {
     if D > 0 {
         other[0] += 1;
     }
-    let mut d = Tensor::<E, D>::new(other, E::of(0));
+    let mut d = Tensor::<E, D>::new(other, E::small(0));
     d.clone_from(t);
-    let before: Vec<i64> = t.iter().map(|x| x.to()).collect();
+    let before: Vec<E> = t.iter().cloned().collect();
     let n = before.len();
     let mut ok = like_rebuilt(t);
     for u in [c, d].iter_mut() {
@@ -264,30 +468,30 @@ fn copies_agree<E: Elem, const D: usize>(t: &Tensor<E, D>) -> bool {
         // independence: write to the copy (IndexMut at the last index, then iter_mut everywhere)
         if n > 0 && t.dims().iter().all(|&x| x > 0) {
             let last = unflatten(t.dims(), n - 1);
-            let nv = if before[n - 1] == 1 { 2 } else { 1 };
-            ok = ok && guarded(|| u[last] = E::of(nv)).is_some();
-            ok = ok && u.iter().map(|x| x.to()).eq(before[..n - 1].iter().copied().chain(std::iter::once(nv)));
-            ok = ok && t.iter().map(|x| x.to()).eq(before.iter().copied()) && *u != *t;
+            let nv = if before[n - 1] == E::small(1) { E::small(2) } else { E::small(1) };
+            ok = ok && guarded(|| u[last] = nv.clone()).is_some();
+            ok = ok && u.iter().eq(before[..n - 1].iter().chain(std::iter::once(&nv)));
+            ok = ok && t.iter().eq(before.iter()) && *u != *t;
             for x in u.iter_mut() {
-                *x = E::of(3);
+                *x = E::small(3);
             }
-            ok = ok && u.iter().all(|x| x.to() == 3) && u.iter().count() == n;
-            ok = ok && t.iter().map(|x| x.to()).eq(before.iter().copied());
+            ok = ok && u.iter().all(|x| *x == E::small(3)) && u.iter().count() == n;
+            ok = ok && t.iter().eq(before.iter());
         }
     }
     // ... and the consuming iterator yields the elements in storage order
-    ok && t.clone().into_iter().map(|x| x.to()).eq(before.iter().copied())
+    ok && t.clone().into_iter().eq(before.iter().cloned())
 }
 
 /// count / nth / last / size_hint of iter() agree with the collected elements
 fn iter_agrees<E: Elem, const D: usize>(t: &Tensor<E, D>) -> bool {
-    let v: Vec<i64> = t.iter().map(|x| x.to()).collect();
+    let v: Vec<&E> = t.iter().collect();
     let n = v.len();
     let (lo, hi) = t.iter().size_hint();
     let mut ok = t.iter().count() == n && lo <= n && hi.map_or(true, |h| n <= h);
-    ok = ok && t.iter().last().map(|x| x.to()) == v.last().copied();
+    ok = ok && t.iter().last() == v.last().copied();
     for k in [0, n / 2, n.saturating_sub(1), n, n + 1] {
-        ok = ok && t.iter().nth(k).map(|x| x.to()) == v.get(k).copied();
+        ok = ok && t.iter().nth(k) == v.get(k).copied();
     }
     ok
 }
@@ -297,15 +501,15 @@ fn run<E: Elem, const D: usize>(t: &[&str]) -> String {
     let dims: [usize; D] = arr(t, &mut at);
     let ctor = t[at];
     at += 1;
-    let newv: i64 = if ctor == "N" {
+    let newv: &str = if ctor == "N" {
         at += 1;
-        p(t[at - 1])
+        t[at - 1]
     } else {
-        0
+        "0"
     };
     let n: usize = p(t[at]);
     at += 1;
-    let data: Vec<E> = (0..n).map(|k| E::of(p(t[at + k]))).collect();
+    let data: Vec<E> = (0..n).map(|k| E::of(t[at + k])).collect();
     at += n;
     let made = guarded(|| match ctor {
         "V" => Tensor::<E, D>::from_vec(dims, data.clone()),
@@ -335,15 +539,15 @@ fn run<E: Elem, const D: usize>(t: &[&str]) -> String {
             "g" => {
                 let idx: [usize; D] = arr(t, &mut at);
                 match guarded(|| tensor[idx].to()) {
-                    Some(x) => out.push(x.to_string()),
+                    Some(x) => out.push(x),
                     None => out.push("P".into()),
                 }
             }
             "s" => {
                 let idx: [usize; D] = arr(t, &mut at);
-                let v: i64 = p(t[at]);
+                let v = E::of(t[at]);
                 at += 1;
-                match guarded(|| tensor[idx] = E::of(v)) {
+                match guarded(|| tensor[idx] = v) {
                     Some(()) => out.push("ok".into()),
                     None => out.push("P".into()),
                 }
@@ -365,7 +569,13 @@ fn run<E: Elem, const D: usize>(t: &[&str]) -> String {
                     .map(|(i, d)| if same && tensor.dim(i) == *d { d.to_string() } else { "0".to_string() }))
             }
             "w" => match guarded(|| written(&tensor)) {
-                Some(b) => out.push(if shared_writer_ok(&tensor, &b) { enc(&b) } else { "BADW2".into() }),
+                Some(b) => out.push(if !shared_writer_ok(&tensor, &b) {
+                    "BADW2".into()
+                } else if !E::nested_ok(&tensor, &b) {
+                    "BADW3".into()
+                } else {
+                    enc(&b)
+                }),
                 None => out.push("P".into()),
             },
             "rt" => {
@@ -404,7 +614,7 @@ fn run<E: Elem, const D: usize>(t: &[&str]) -> String {
                 let edims: [usize; D] = arr(t, &mut at);
                 let m: usize = p(t[at]);
                 at += 1;
-                let y: Vec<E> = (0..m).map(|k| E::of(p(t[at + k]))).collect();
+                let y: Vec<E> = (0..m).map(|k| E::of(t[at + k])).collect();
                 at += m;
                 match guarded(|| Tensor::<E, D>::from_vec(edims, y)) {
                     Some(u) => {
@@ -425,11 +635,11 @@ fn run<E: Elem, const D: usize>(t: &[&str]) -> String {
             "im" => {
                 let m: usize = p(t[at]);
                 at += 1;
-                let vs: Vec<i64> = (0..m).map(|k| p(t[at + k])).collect();
+                let vs: Vec<E> = (0..m).map(|k| E::of(t[at + k])).collect();
                 at += m;
                 let cnt = tensor.iter_mut().count();
                 for (x, v) in tensor.iter_mut().zip(vs) {
-                    *x = E::of(v);
+                    *x = v;
                 }
                 out.push(cnt.to_string());
             }
@@ -444,14 +654,21 @@ fn run<E: Elem, const D: usize>(t: &[&str]) -> String {
 
 fn by_rank<E: Elem>(rank: &str, t: &[&str]) -> String {
     match rank {
-        "0" => run::<E, 0>(t),
-        "1" => run::<E, 1>(t),
-        "2" => run::<E, 2>(t),
-        "3" => run::<E, 3>(t),
         "4" => run::<E, 4>(t),
         "5" => run::<E, 5>(t),
         "6" => run::<E, 6>(t),
         "8" => run::<E, 8>(t),
+        _ => low_rank::<E>(rank, t),
+    }
+}
+
+/// the element types added for the io round trip: the shape logic is rank-generic and already run at ranks 0..6, 8
+fn low_rank<E: Elem>(rank: &str, t: &[&str]) -> String {
+    match rank {
+        "0" => run::<E, 0>(t),
+        "1" => run::<E, 1>(t),
+        "2" => run::<E, 2>(t),
+        "3" => run::<E, 3>(t),
         other => {
             eprintln!("harness: unsupported rank {}", other);
             std::process::exit(3)
@@ -467,6 +684,19 @@ fn main() {
             "i32" => by_rank::<i32>(rank, t),
             "u8" => by_rank::<u8>(rank, t),
             "str" => by_rank::<String>(rank, t),
+            "i8" => low_rank::<i8>(rank, t),
+            "i16" => low_rank::<i16>(rank, t),
+            "u16" => low_rank::<u16>(rank, t),
+            "u32" => low_rank::<u32>(rank, t),
+            "u64" => low_rank::<u64>(rank, t),
+            "i128" => low_rank::<i128>(rank, t),
+            "u128" => low_rank::<u128>(rank, t),
+            "isize" => low_rank::<isize>(rank, t),
+            "usize" => low_rank::<usize>(rank, t),
+            "char" => low_rank::<char>(rank, t),
+            "t2" => low_rank::<(i64, u8)>(rank, t),
+            "t3" => low_rank::<(u8, i64, u16)>(rank, t),
+            "tc" => low_rank::<(char, u32)>(rank, t),
             other => {
                 eprintln!("harness: unsupported element type {}", other);
                 std::process::exit(3)
